@@ -162,3 +162,47 @@ fn c05_local_queue_priority_then_fifo() {
     core::mem::forget(local);
     core::mem::forget(q);
 }
+
+/// Two items, any two i64 priorities (ties, extremes, negatives), on the SHARED queue: the one with the smaller priority value
+/// comes out first, the earlier pushed one among equals; a third pop finds nothing and the reported length follows.
+#[kani::proof]
+#[kani::unwind(4)]
+fn c05_shared_two_items_any_priorities() {
+    let q: OrderedWorkStealQueue<u8> = OrderedWorkStealQueue::new(1, 2);
+    let (p1, p2): (c_longlong, c_longlong) = (kani::any(), kani::any());
+    q.push_with_priority(p1, 1);
+    q.push_with_priority(p2, 2);
+    kani::assert(q.len() == 2, "two items are queued");
+    let a = q.pop();
+    let b = q.pop();
+    let c = q.pop();
+    if p2 < p1 {
+        kani::assert(a == Some(2) && b == Some(1), "the item with the strictly higher priority (smaller value) is served first although it was pushed later");
+    } else {
+        kani::assert(a == Some(1) && b == Some(2), "equal or lower priority: push order is kept");
+    }
+    kani::assert(c.is_none() && q.len() == 0, "nothing is left and the reported length is 0");
+    kani::cover!(p1 == p2, "equal priorities");
+    kani::cover!(p1 == c_longlong::MAX && p2 == c_longlong::MIN, "the i64 extremes");
+}
+
+/// The same through ONE local handle (capacity 2, nothing overflows, shared queue empty): a single worker serves in priority order.
+#[kani::proof]
+#[kani::unwind(4)]
+fn c05_local_two_items_any_priorities() {
+    let q: OrderedWorkStealQueue<u8> = OrderedWorkStealQueue::new(1, 2);
+    let local = q.local_queue();
+    let (p1, p2): (c_longlong, c_longlong) = (kani::any(), kani::any());
+    local.push_with_priority(p1, 1);
+    local.push_with_priority(p2, 2);
+    let a = local.pop();
+    let b = local.pop();
+    if p2 < p1 {
+        kani::assert(a == Some(2) && b == Some(1), "a single worker serves the strictly higher priority first");
+    } else {
+        kani::assert(a == Some(1) && b == Some(2), "equal or lower priority: push order is kept");
+    }
+    kani::cover!(p1 == p2, "equal priorities");
+    core::mem::forget(local);
+    core::mem::forget(q);
+}
